@@ -165,40 +165,115 @@ class _NoStream:
     _waiter = object()
 
 
+class Nested:
+    """a nested multipart part: what was given to the outer writer"""
+
+    def __init__(self, spec, origs, wire, wparts):
+        self.spec, self.origs, self.wire, self.wparts = spec, origs, wire, wparts
+
+
+def _open_file(w, p, content, opened):
+    """a real file object (fileno, fstat) holding `content`, positioned at p['file']['pre']; the same object again
+    for `same_as`"""
+    import tempfile
+    fs = p["file"]
+    if fs.get("same_as") is not None and fs["same_as"] in opened:
+        return opened[fs["same_as"]]
+    f = tempfile.TemporaryFile()
+    f.write(content)
+    f.flush()
+    f.seek(fs.get("pre", 0))
+    w_files = w.setdefault("files", [])
+    w_files.append(f)
+    return f
+
+
+def _touch(f, n):
+    """the application uses the file for something else: read n bytes (-1: to the end) / rewind (-2)"""
+    def go():
+        if n == -2:
+            f.seek(0)
+        else:
+            f.read(None if n < 0 else n)
+    return go
+
+
 def build_writer(spec):
-    """spec -> (MultipartWriter, [original content bytes per part])"""
+    """spec -> (MultipartWriter, [what each part was given: content bytes, or Nested]).  File parts are real
+    temporary files; w._c19 holds them and the actions to run between taking the size and writing."""
     from aiohttp import FormData
     from aiohttp.multipart import MultipartWriter
     from multidict import CIMultiDict
     kind = spec["kind"]
     origs = []
+    aux = {"files": [], "after_size": []}
+    opened = {}
+
+    def file_value(i, p, content):
+        f = _open_file(aux, p, content, opened)
+        opened[i] = f
+        fs = p["file"]
+        pre = fs.get("pre", 0) if fs.get("same_as") is None else spec["parts"][fs["same_as"]]["file"].get("pre", 0)
+        if fs.get("touch_size") is not None:
+            aux["after_size"].append(_touch(f, fs["touch_size"]))
+        return f, content[pre:]
+
     if kind == "formdata":
         fd = FormData(quote_fields=spec.get("quote_fields", True), boundary=spec["boundary"], default_to_multipart=True)
-        for p in spec["parts"]:
+        for i, p in enumerate(spec["parts"]):
             content = bytes.fromhex(p["content"])
-            val = content.decode("utf-8") if p.get("str") else content
+            if p.get("file"):
+                val, content = file_value(i, p, content)
+            else:
+                val = content.decode("utf-8") if p.get("str") else content
             fd.add_field(p["name"], val, content_type=p.get("ctype"), filename=p.get("filename"))
             origs.append(content)
-        return fd(), origs
+        w = fd()
+        w._c19 = aux
+        return w, origs
     w = MultipartWriter(kind, boundary=spec["boundary"])
-    for p in spec["parts"]:
-        content = bytes.fromhex(p["content"])
+    w._c19 = aux
+    for i, p in enumerate(spec["parts"]):
         hs = CIMultiDict()
         for k, v in p.get("headers", []):
             hs.add(k, v)
+        if p.get("nested"):
+            iw, iorigs = build_writer(p["nested"])
+            iwire, iwparts, _ = write_out(iw, iorigs)
+            iw2, _ = build_writer(p["nested"])
+            w.append(iw2, hs)
+            origs.append(Nested(p["nested"], iorigs, iwire, iwparts))
+            continue
+        content = bytes.fromhex(p["content"])
         if p.get("cte"):
             hs["Content-Transfer-Encoding"] = p["cte"]
         if p.get("ce"):
             hs["Content-Encoding"] = p["ce"]
         if p.get("ctype"):
             hs["Content-Type"] = p["ctype"]
-        val = content.decode("utf-8") if p.get("str") else content
+        if p.get("file"):
+            val, content = file_value(i, p, content)
+        else:
+            val = content.decode("utf-8") if p.get("str") else content
         pl = w.append(val, hs)
+        if p.get("file") and p["file"].get("touch_append") is not None:
+            _touch(val, p["file"]["touch_append"])()
         if kind == "form-data" and p.get("name") is not None:
             pl.set_content_disposition("form-data", quote_fields=spec.get("quote_fields", True), name=p["name"],
                                        **({"filename": p["filename"]} if p.get("filename") is not None else {}))
         origs.append(content)
     return w, origs
+
+
+def leaves(spec, origs, wparts):
+    """the body parts (not the nested readers) in the order a depth-first reader meets them"""
+    out = []
+    for ps, orig, wp in zip(spec["parts"], origs, wparts):
+        if isinstance(orig, Nested):
+            out += leaves(orig.spec, orig.origs, orig.wparts)
+        else:
+            out.append({"ps": ps, "orig": orig, "wp": wp, "kind": spec["kind"]})
+    return out
 
 
 class FramingError(Exception):
@@ -210,7 +285,15 @@ def write_out(w, origs):
     the written bytes themselves (not by write() call boundaries): opening delimiter, the payload's header block,
     the content (known for identity parts, up to the next delimiter for encoded ones), CRLF; closing delimiter."""
     rec = _Rec()
-    drive(w.write(rec), _NoStream)
+    aux = getattr(w, "_c19", {"files": [], "after_size": []})
+    try:
+        declared = w.size            # what a client puts into Content-Length, taken before the body is sent
+        for act in aux["after_size"]:
+            act()
+        drive(w.write(rec), _NoStream)
+    finally:
+        for f in aux["files"]:
+            f.close()
     wire = b"".join(rec.calls)
     opening = b"--" + w._boundary + b"\r\n"
     closing = b"--" + w._boundary + b"--\r\n"
@@ -231,9 +314,9 @@ def write_out(w, origs):
                 raise FramingError(f"no delimiter after the encoded content starting at offset {pos}")
             body = wire[pos:end]
         else:
-            body = orig
-            if not wire.startswith(body, pos):
-                raise FramingError(f"content of the identity part expected at offset {pos}")
+            body = orig.wire if isinstance(orig, Nested) else orig
+            if not wire.startswith(body, pos) or not wire.startswith(b"\r\n", pos + len(body)):
+                raise FramingError(f"content of the identity part ({len(body)} bytes given to the writer) expected at offset {pos}")
         pos += len(body)
         if not wire.startswith(b"\r\n", pos):
             raise FramingError(f"CRLF expected after the content at offset {pos}")
@@ -241,7 +324,7 @@ def write_out(w, origs):
         parts.append((bh, body, not (enc or te)))
     if wire[pos:] != closing:
         raise FramingError(f"closing delimiter expected at offset {pos}")
-    return wire, parts, w.size
+    return wire, parts, declared
 
 
 def expected_name(pspec, got):
@@ -289,52 +372,60 @@ def hdr_pairs(headers):
 
 
 async def _read_all(ctype, stream, sched, limits, rec):
-    """Drive the real reader; rec gets: parts (dicts), final, and counters."""
+    """Drive the real reader depth-first (a nested MultipartReader is walked to its end); rec gets: items (leaf parts
+    and nested markers in order), parts (the leaves), final, and counters."""
     from aiohttp.multipart import BodyPartReader, MultipartReader
-    r = MultipartReader({"Content-Type": ctype}, stream, client_max_size=limits.get("client_max", BIG),
-                        max_field_size=limits.get("max_field", 8190), max_headers=limits.get("max_headers", 128),
-                        max_size_error_cls=MaxSize)
-    rec["boundary"] = r._boundary
-    i = 0
-    while True:
-        rec["phase"] = ("next", i, stream._cursor)
-        part = await r.next()
-        if part is None:
-            rec["final"] = "END"
-            return
-        if not isinstance(part, BodyPartReader):
-            rec["final"] = "UNMODELLED"
-            return
-        a = sched[i] if i < len(sched) else ["R"]
-        i += 1
-        rec["phase"] = ("part", i, stream._cursor)
-        info = {"headers": hdr_pairs(part.headers), "chunks": [], "api": a, "part": part, "cursor0": stream._cursor}
-        rec["cur"] = info
-        calls = 0
-        if a[0] == "R":
-            info["chunks"].append(bytes(await part.read()))
-        elif a[0] == "C":
-            sizes = list(a[2]) or [8192]
-            while not part.at_eof() and (a[1] == 0 or calls < a[1]):
-                info["chunks"].append(bytes(await part.read_chunk(sizes[calls % len(sizes)])))
-                calls += 1
-        elif a[0] == "L":
-            while not part.at_eof() and (a[1] == 0 or calls < a[1]):
-                info["chunks"].append(bytes(await part.readline()))
-                calls += 1
-        elif a[0] == "X":
-            await part.release()
-        info["eof"] = part.at_eof()
-        info["name"], info["filename"] = part.name, part.filename
-        rec["parts"].append(info)
-        rec["cur"] = None
+    top = MultipartReader({"Content-Type": ctype}, stream, client_max_size=limits.get("client_max", BIG),
+                          max_field_size=limits.get("max_field", 8190), max_headers=limits.get("max_headers", 128),
+                          max_size_error_cls=MaxSize)
+    rec["boundary"] = top._boundary
+    counter = [0]
+
+    async def walk(r):
+        while True:
+            rec["phase"] = ("next", counter[0], stream._cursor)
+            part = await r.next()
+            if part is None:
+                return
+            if not isinstance(part, BodyPartReader):
+                rec["items"].append({"nested": True, "headers": hdr_pairs(part.headers)})
+                await walk(part)
+                continue
+            i = counter[0]
+            a = sched[i] if i < len(sched) else ["R"]
+            counter[0] += 1
+            rec["phase"] = ("part", i + 1, stream._cursor)
+            info = {"headers": hdr_pairs(part.headers), "chunks": [], "api": a, "part": part, "cursor0": stream._cursor}
+            rec["cur"] = info
+            calls = 0
+            if a[0] == "R":
+                info["chunks"].append(bytes(await part.read()))
+            elif a[0] == "C":
+                sizes = list(a[2]) or [8192]
+                while not part.at_eof() and (a[1] == 0 or calls < a[1]):
+                    info["chunks"].append(bytes(await part.read_chunk(sizes[calls % len(sizes)])))
+                    calls += 1
+            elif a[0] == "L":
+                while not part.at_eof() and (a[1] == 0 or calls < a[1]):
+                    info["chunks"].append(bytes(await part.readline()))
+                    calls += 1
+            elif a[0] == "X":
+                await part.release()
+            info["eof"] = part.at_eof()
+            info["name"], info["filename"] = part.name, part.filename
+            rec["parts"].append(info)
+            rec["items"].append(info)
+            rec["cur"] = None
+
+    await walk(top)
+    rec["final"] = "END"
 
 
 def impl_run(ctype, segs, eager, sched, limits, max_ops=None):
     stream = make_stream(segs, eager)
     total = sum(len(b) for _, b in segs)
     stream.max_ops = max_ops if max_ops is not None else 40 * total + 20000
-    rec = {"parts": [], "final": None, "cur": None}
+    rec = {"parts": [], "items": [], "final": None, "cur": None}
     with warnings.catch_warnings():
         warnings.simplefilter("ignore")
         try:
@@ -350,9 +441,12 @@ def impl_run(ctype, segs, eager, sched, limits, max_ops=None):
 
 def obs_of_impl(rec):
     out = []
-    for p in rec["parts"]:
+    for p in rec["items"]:
         hs = ";".join(k.hex() + "=" + (v.hex() or "-") for k, v in p["headers"]) or "-"
-        out.append("P " + hs + " " + fw.hexs(b"".join(p["chunks"])) + " " + ("1" if p["eof"] else "0"))
+        if p.get("nested"):
+            out.append("N " + hs)
+        else:
+            out.append("P " + hs + " " + fw.hexs(b"".join(p["chunks"])) + " " + ("1" if p["eof"] else "0"))
     out.append(rec["final"])
     return " | ".join(out)
 
@@ -454,9 +548,9 @@ NAMES = ["a", "field", "f 1", "naïve", "x\"y", "a;b", "semi;colon;two", "back\\
          "/abs", "\\\\unc", "per%20cent", "q'uote", "tab\tname", "日本語.txt", "a b", "_charset", "plus+", "*star", "x" * 80]
 
 
-def gen_spec(rng, quick=True):
-    kind = rng.choice(["mixed", "mixed", "form-data", "formdata", "related"])
-    boundary = rng.choice(BOUNDARIES) if rng.random() < 0.8 else "".join(
+def _gen_spec_flat(rng, quick=True, kinds=None, boundary=None):
+    kind = rng.choice(kinds or ["mixed", "mixed", "form-data", "formdata", "related"])
+    boundary = boundary if boundary is not None else rng.choice(BOUNDARIES) if rng.random() < 0.8 else "".join(
         rng.choice("abcXYZ019'()+_,-./:=? ") for _ in range(rng.randint(1, 70))).strip() or "z"
     if boundary.endswith(" ") or boundary.startswith(" "):
         boundary = "s" + boundary.strip() + "e"
@@ -502,12 +596,92 @@ def gen_spec(rng, quick=True):
                 p["ce"] = rng.choice(["gzip", "deflate"])
                 p["cte"] = "base64"
                 p["content"] = gen_content(rng, bb, rng.randint(0, 300)).hex()
+        # header tokens are case-insensitive: the writer lower-cases them before acting, the reader must too
+        for key in ("cte", "ce"):
+            if p.get(key) and rng.random() < 0.45:
+                p[key] = rng.choice([p[key].upper(), p[key].title(), p[key].capitalize(),
+                                     "".join(c.upper() if rng.random() < 0.5 else c for c in p[key])])
         if len(p["content"]) > 8000:
             big_used = True
         parts.append(p)
     spec = {"kind": kind, "boundary": boundary, "parts": parts}
     if kind in ("form-data", "formdata"):
         spec["quote_fields"] = rng.random() < 0.6
+    return spec
+
+
+def _scrub(content_hex: str, delims):
+    """no delimiter of an enclosing writer inside (or across the start of) a nested part's content"""
+    out = bytearray(bytes.fromhex(content_hex))
+    for delim in delims:
+        while True:
+            i = (b"\r\n" + bytes(out)).find(delim)
+            if i < 0:
+                break
+            j = i - 2 + len(delim) - 1
+            out[j] = 0x41 if out[j] != 0x41 else 0x42
+    return bytes(out).hex()
+
+
+def gen_spec(rng, quick=True, allow_files=True):
+    """a writer spec; some have a nested multipart part (own boundary, own parts), some parts are real files
+    (pre-positioned, read by the application between declaring the size and writing, or the same file twice)"""
+    spec = _gen_spec_flat(rng, quick)
+    outer = spec["boundary"]
+    if spec["kind"] != "formdata" and rng.random() < 0.15:
+        inner_b = rng.choice([b for b in ["in", "INNER-1", "zz.9", "n" * 40, "with space2"]
+                              if not b.startswith(outer) and not outer.startswith(b)] or ["q" + outer + "q"])
+        if not inner_b.startswith(outer) and not outer.startswith(inner_b):
+            inner = _gen_spec_flat(rng, quick, kinds=["mixed", "related", "form-data"], boundary=inner_b)
+            inner["parts"] = inner["parts"][:3]
+            od = b"\r\n--" + outer.encode()
+            idl = b"\r\n--" + inner_b.encode()
+            for p in inner["parts"]:
+                if len(p["content"]) > 6000:
+                    p["content"] = p["content"][:600]
+                if p.get("str"):
+                    p.pop("str")
+                p["content"] = _scrub(p["content"], [od, idl])
+            part = {"nested": inner}
+            if rng.random() < 0.3:
+                part["headers"] = [["X-Outer", "1"]]
+            spec["parts"].insert(rng.randint(0, len(spec["parts"])), part)
+            spec["parts"] = spec["parts"][:6]
+    if allow_files and rng.random() < 0.2:
+        cands = [i for i, p in enumerate(spec["parts"]) if not p.get("nested") and not p.get("cte") and not p.get("ce")
+                 and not p.get("str")]
+        rng.shuffle(cands)
+        form = spec["kind"] in ("form-data", "formdata")
+        first = None
+        for i in cands[:2]:
+            p = spec["parts"][i]
+            n = len(p["content"]) // 2
+            fs = {}
+            if first is not None and rng.random() < 0.6:
+                fs["same_as"] = first
+                p["content"] = spec["parts"][first]["content"]
+            else:
+                fs["pre"] = rng.choice([0, 0, 0, min(n, 1), n // 2, n])
+                if first is None:
+                    first = i
+            if rng.random() < 0.5:
+                fs["touch_size"] = rng.choice([-1, -1, 1, 5, -2])
+            if not form and rng.random() < 0.4:
+                fs["touch_append"] = rng.choice([-1, 3, -2])
+            p["file"] = fs
+            if spec["kind"] == "formdata":
+                p["filename"] = p.get("filename") or "up%d.bin" % i
+                p.pop("ctype", None)
+        # the content after `pre` must still be free of the delimiter at its start
+        for i in cands[:2]:
+            p = spec["parts"][i]
+            pre = p["file"].get("pre", 0) if p["file"].get("same_as") is None else spec["parts"][p["file"]["same_as"]]["file"].get("pre", 0)
+            c = bytes.fromhex(p["content"])
+            if (b"\r\n" + c[pre:]).find(b"\r\n--" + outer.encode()) >= 0:
+                p.pop("file")
+                for q in spec["parts"]:
+                    if q.get("file", {}).get("same_as") == i:
+                        q.pop("file")
     return spec
 
 
@@ -549,7 +723,8 @@ def gen_segs(rng, wire: bytes, blen: int):
 def gen_sched(rng, nparts: int, blen: int, allow_partial_lines=True):
     out = []
     uniform = rng.random() < 0.4
-    legal = [blen, blen, blen + 1, blen + 2, 2 * blen, 64 + blen, 100 + blen, 4096, 8191, 8192, 8193, 20000]
+    legal = [blen, blen, blen + 1, blen + 2, 2 * blen, 64 + blen, 100 + blen, 4096, 8191, 8192, 8193, 20000] + \
+            [z for z in (13, 50, 77, 1001) if z >= blen]
 
     def one():
         r = rng.random()
@@ -618,27 +793,32 @@ def oracle_roundtrip(spec, origs, wparts, wire, size, rec, sched):
     want_b = b"--" + spec["boundary"].encode("ascii")
     if rec.get("boundary") is not None and rec["boundary"] != want_b:
         return bad + [("boundary-param", f"boundary parameter read back as {rec['boundary']!r}, written {want_b!r}", {})]
+    lv = leaves(spec, origs, wparts)
+    for j, x in enumerate(lv):
+        for k, v in _written_headers(x["wp"][0]):
+            if k == b"content-length" and v != b"%d" % len(x["wp"][1]):
+                bad.append(("size", f"part {j}: Content-Length header {v!r} but {len(x['wp'][1])} bytes of content written", {"part": j}))
     tainted = False      # a partial readline leaves the reader outside the single-API quantifier
     derailed = False
     for i, info in enumerate(rec["parts"]):
         a = info["api"]
-        if i >= len(origs):
+        if i >= len(lv):
             bad.append(("count", f"part {i}: reader produced more parts than were written", {}))
             derailed = True
             break
-        ps = spec["parts"][i]
+        ps, orig_i, wp_i, kind_i = lv[i]["ps"], lv[i]["orig"], lv[i]["wp"], lv[i]["kind"]
         got_h = {}
         for k, v in info["headers"]:
             got_h.setdefault(k.lower(), v)
         hbad = False
-        for k, v in _written_headers(wparts[i][0]):
+        for k, v in _written_headers(wp_i[0]):
             if got_h.get(k) != v:
                 bad.append(("header", f"part {i}: header {k!r} written {v!r} read {got_h.get(k)!r}", {"part": i}))
                 hbad = True
         if hbad:
             derailed = True
             break
-        if spec["kind"] in ("form-data", "formdata") and "name" in ps:
+        if kind_i in ("form-data", "formdata") and "name" in ps:
             disp = got_h.get(b"content-disposition", b"").decode("utf-8", "replace")
             if not expected_name(ps["name"], info["name"]):
                 bad.append(("name", f"part {i}: field name {ps['name']!r} read back as {info['name']!r}",
@@ -648,21 +828,21 @@ def oracle_roundtrip(spec, origs, wparts, wire, size, rec, sched):
                             {"part": i, "written": ps.get("filename"), "read": info["filename"], "disposition": disp}))
         if api_complete(a, info):
             raw = b"".join(info["chunks"])
-            if raw != wparts[i][1]:
-                bad.append(("content", f"part {i}: wire content differs ({len(raw)} bytes read, {len(wparts[i][1])} written) api={a}",
+            if raw != wp_i[1]:
+                bad.append(("content", f"part {i}: wire content differs ({len(raw)} bytes read, {len(wp_i[1])} written) api={a}",
                             {"part": i, "api": a}))
                 derailed = True
                 break
             if not info["eof"]:
                 bad.append(("eof-flag", f"part {i}: not at_eof after a complete {a[0]}", {"part": i, "api": a}))
-            cte, ce = ps.get("cte"), ps.get("ce")
-            if cte == "quoted-printable" and not qp_law_ok(origs[i]):
+            cte, ce = (ps.get("cte") or "").lower() or None, (ps.get("ce") or "").lower() or None
+            if cte == "quoted-printable" and not qp_law_ok(orig_i):
                 pass        # stdlib a2b_qp(b2a_qp(x)) != x for this text: outside the oracle law
             else:
                 per_chunk = a[0] == "C" and cte == "base64" and ce in (None, "identity")
                 try:
                     dec = _decode_part(info, info["chunks"], per_chunk)
-                    if dec != origs[i]:
+                    if dec != orig_i:
                         bad.append(("decode", f"part {i}: decoded content differs from the original (cte={cte}, ce={ce}, api={a}, per_chunk={per_chunk})",
                                     {"part": i, "api": a, "per_chunk": per_chunk, "b64_counts": [b64_count(c) for c in info["chunks"]]}))
                 except Exception as e:  # noqa
@@ -670,7 +850,7 @@ def oracle_roundtrip(spec, origs, wparts, wire, size, rec, sched):
                                 {"part": i, "api": a, "per_chunk": per_chunk, "b64_counts": [b64_count(c) for c in info["chunks"]]}))
         elif a[0] == "C":
             raw = b"".join(info["chunks"])
-            if not wparts[i][1].startswith(raw):
+            if not wp_i[1].startswith(raw):
                 bad.append(("prefix", f"part {i}: partial read_chunk data is not a prefix of the written content", {"part": i, "api": a}))
                 derailed = True
                 break
@@ -680,10 +860,10 @@ def oracle_roundtrip(spec, origs, wparts, wire, size, rec, sched):
     if not tainted and not derailed:
         if rec["final"] != "END":
             cur = rec.get("cur") or {}
-            bad.append(("final", f"reader ended with {rec['final']} ({rec.get('exc')}) after {len(rec['parts'])} of {len(origs)} parts (api {cur.get('api')})",
+            bad.append(("final", f"reader ended with {rec['final']} ({rec.get('exc')}) after {len(rec['parts'])} of {len(lv)} parts (api {cur.get('api')})",
                         {"api": cur.get("api"), "part": len(rec["parts"])}))
-        elif len(rec["parts"]) != len(origs):
-            bad.append(("count", f"{len(rec['parts'])} parts read, {len(origs)} written", {}))
+        elif len(rec["parts"]) != len(lv):
+            bad.append(("count", f"{len(rec['parts'])} parts read, {len(lv)} written", {}))
     return bad
 
 
@@ -735,7 +915,7 @@ def merge_headers(obs: str) -> str:
     out = []
     for tok in obs.split(" | "):
         f = tok.split(" ")
-        if f[0] == "P" and f[1] != "-" and len(f) == 4:
+        if f[0] in ("P", "N") and len(f) >= 2 and f[1] != "-":
             pairs = [tuple(x.split("=")) for x in f[1].split(";")]
             names = [bytes.fromhex(k) for k, _ in pairs]
             if len({n.lower() for n in names}) != len(names):
@@ -792,7 +972,7 @@ def suite_roundtrip(ctx, exe, specs=None):
         wlines.append((spec, wire, size, wl))
         for _ in range(reps):
             segs, eager = gen_segs(rng, wire, blen)
-            sched = gen_sched(rng, len(spec["parts"]), blen)
+            sched = gen_sched(rng, len(spec_leaves(spec)), blen)
             rec = impl_run(ctype, segs, eager, sched, {})
             case = {"suite": "roundtrip", "spec": spec, "segs": seg_lens(segs), "eager": eager, "sched": sched}
             bad = oracle_roundtrip(spec, origs, wparts, wire, size, rec, sched)
@@ -800,10 +980,17 @@ def suite_roundtrip(ctx, exe, specs=None):
             boundary = rec.get("boundary") or (b"--" + spec["boundary"].encode())
             lines.append(model_line(boundary[2:], spec["kind"] in ("form-data", "formdata"), segs, eager, sched, {}))
             cases.append((case, impl, bad, rec["final"], len(wire), len(segs)))
-            for a in sched[: len(spec["parts"])]:
+            for a in sched[: len(spec_leaves(spec))]:
                 ctx.count("api:" + a[0] + ("" if a[0] in "RXS" or a[1] == 0 else "-partial"))
-            for p in spec["parts"]:
-                ctx.count("enc:" + (p.get("cte") or "-") + "/" + (p.get("ce") or "-"))
+            if len(spec_leaves(spec)) != len(spec["parts"]):
+                ctx.count("spec:nested")
+            for p, _b in spec_leaves(spec):
+                if p.get("file"):
+                    ctx.count("spec:file-part" + ("-same-file-twice" if p["file"].get("same_as") is not None else "")
+                              + ("-touched" if p["file"].get("touch_size") is not None or p["file"].get("touch_append") is not None else ""))
+                ctx.count("enc:" + (p.get("cte") or "-").lower() + "/" + (p.get("ce") or "-").lower())
+                if (p.get("cte") or "") != (p.get("cte") or "").lower() or (p.get("ce") or "") != (p.get("ce") or "").lower():
+                    ctx.count("enc:mixed-case-token")
             ctx.count("kind:" + spec["kind"])
             ctx.count("wire:<64" if len(wire) < 64 else "wire:<1k" if len(wire) < 1024 else "wire:<8k" if len(wire) < 8192 else "wire:>=8k")
             ctx.count("segs:1" if len(segs) == 1 else "segs:<=16" if len(segs) <= 16 else "segs:<=256" if len(segs) <= 256 else "segs:>256")
@@ -856,9 +1043,19 @@ def build_model():
     return fw.ocaml_model("C19", ["Model/Multipart.vo", "Model/MultipartSpec.vo"])
 
 
+def spec_leaves(spec):
+    out = []
+    for p in spec["parts"]:
+        if p.get("nested"):
+            out += spec_leaves(p["nested"])
+        else:
+            out.append((p, spec["boundary"]))
+    return out
+
+
 def _part_content(case, i):
     try:
-        return bytes.fromhex(case["spec"]["parts"][i]["content"])
+        return bytes.fromhex(spec_leaves(case["spec"])[i][0]["content"])
     except Exception:  # noqa
         return None
 
@@ -875,7 +1072,7 @@ def sig_readline_lf_boundary(case, params):
     content = _part_content(case, i) if i is not None else None
     if content is None:
         return False
-    needle = b"\n--" + case["spec"]["boundary"].encode("ascii")
+    needle = b"\n--" + spec_leaves(case["spec"])[i][1].encode("ascii")
     j = content.find(needle)
     while j >= 0:
         if j == 0 or content[j - 1] != 13:
@@ -1103,8 +1300,8 @@ def suite_mutants(ctx, exe):
     cases, lines = [], []
     k = 0
     while k < n:
-        spec = gen_spec(rng)
-        for p in spec["parts"]:
+        spec = gen_spec(rng, allow_files=False)
+        for p, _b in spec_leaves(spec):
             if len(p["content"]) > 1200:
                 p["content"] = p["content"][:1200]
         if spec["kind"] == "formdata":
@@ -1123,7 +1320,7 @@ def suite_mutants(ctx, exe):
             if not body:
                 body = b"\r\n"
             segs, eager = gen_segs(rng, body, blen)
-            sched = gen_sched(rng, len(spec["parts"]) + 2, blen)
+            sched = gen_sched(rng, len(spec_leaves(spec)) + 2, blen)
             limits = {}
             if rng.random() < 0.3:
                 limits = {"max_field": rng.choice([8, 20, 40, 64]), "max_headers": rng.choice([1, 2, 3, 8]),
